@@ -24,6 +24,7 @@ type Scenario struct {
 	Thorough int // deviation bound of the thorough tier
 	Level    int // shard level for the thorough tier (default 2)
 	Desc     string
+	Heavy    bool     // many executions per bound: the race tier's quick run stays at bound 0
 	Expect   []string // litmus scenarios: the complete set of OUTCOME labels over all schedules
 }
 
@@ -412,7 +413,7 @@ func WorkerMain() int {
 		for _, n := range regOrder {
 			sc := registry[n]
 			b, _ := json.Marshal(map[string]any{"name": n, "props": sc.Props, "quick": sc.Quick, "thorough": sc.Thorough,
-				"level": sc.Level, "desc": sc.Desc, "expect": sc.Expect, "delay": sc.Opts.Delay})
+				"level": sc.Level, "desc": sc.Desc, "expect": sc.Expect, "delay": sc.Opts.Delay, "heavy": sc.Heavy})
 			fmt.Println(string(b))
 		}
 		return 0
